@@ -12,8 +12,18 @@ import (
 	"verif/sim/fb"
 	"verif/sim/model"
 	"verif/sim/simrt"
+	"verif/sim/simtime"
 	"verif/sim/world"
 )
+
+// nameExpiry is the expiry stamp a name source puts on an entry: none, or some minutes ahead. A
+// refreshed expiry alone is not a name change.
+func nameExpiry(code int) time.Time {
+	if code%4 == 0 {
+		return time.Time{}
+	}
+	return simtime.Now().Add(time.Duration(code%4) * 10 * time.Minute)
+}
 
 // ---- family "hosts": sequential histories for C04 / C05 / C06 (and C07, C10 on the side) ----
 
@@ -92,14 +102,14 @@ func genHosts(prop string, seed uint64, tier string) Scenario {
 			if r.chance(1, 8) {
 				ip = r.n(nIP4)
 			}
-			sc.Ops = append(sc.Ops, Op{K: "dhcpupd", M: clientMAC(), I: ip, N: r.n(len(names))})
+			sc.Ops = append(sc.Ops, Op{K: "dhcpupd", M: clientMAC(), I: ip, N: r.n(len(names)), S: r.n(4)})
 			if r.chance(2, 3) {
 				sc.Ops = append(sc.Ops, Op{K: "dhcpframe", M: sc.Ops[len(sc.Ops)-1].M})
 			}
 		case 4:
 			sc.Ops = append(sc.Ops, Op{K: "dhcpframe", M: clientMAC()})
 		case 5:
-			o := Op{K: "name", P: 1 + r.n(4), N: 1 + r.n(len(names)-1)}
+			o := Op{K: "name", P: 1 + r.n(4), N: 1 + r.n(len(names)-1), S: r.n(4)}
 			if r.chance(3, 4) {
 				o.I = homeIP()
 			} else {
@@ -281,7 +291,7 @@ func runHosts(e *exec) {
 			w.Inject(f)
 		case "dhcpupd":
 			mac, ip := u.MACs[o.M], u.IP4[o.I]
-			err := w.S.DHCPv4Update(world.HW(mac), ip, packet.NameEntry{Type: "dhcp4", Name: names[o.N]})
+			err := w.S.DHCPv4Update(world.HW(mac), ip, packet.NameEntry{Type: "dhcp4", Name: names[o.N], Expire: nameExpiry(o.S)})
 			if !ip.IsValid() || ip.IsUnspecified() {
 				if err == nil {
 					e.violate("C04.api", "dhcpupdate-accepts-unspecified", fmt.Sprintf("DHCPv4Update(%s, %s) returned nil", mm(mac), ip))
@@ -326,7 +336,7 @@ func runHosts(e *exec) {
 			if x == nil {
 				continue
 			}
-			ne := packet.NameEntry{Type: "t", Name: names[o.N]}
+			ne := packet.NameEntry{Type: "t", Name: names[o.N], Expire: nameExpiry(o.S)}
 			switch o.P {
 			case 1:
 				host.UpdateMDNSName(ne)
